@@ -2343,6 +2343,11 @@ func n9Guard(fn *ssa.Function, at ssa.Instruction, coll ssa.Value, k int64) stri
 			if call, ok := b.v.(*ssa.Call); ok && strings.Contains(calleeName(call), "Items") {
 				return "key/value pair returned by Items()"
 			}
+			if ex, ok := b.v.(*ssa.Extract); ok {
+				if call, ok := ex.Tuple.(*ssa.Call); ok && strings.Contains(calleeName(call), "Items") {
+					return "key/value pair returned by Items() (through a helper)"
+				}
+			}
 			if p, ok := b.v.(*ssa.Parameter); ok {
 				if sl, ok := p.Type().Underlying().(*types.Slice); ok && isNamed(sl.Elem(), "starlark", "Tuple") {
 					return "named-argument pair (kwargs elements are pairs by the calling convention)"
@@ -3159,6 +3164,9 @@ func evalBytePredicate(fn *ssa.Function, b byte) (bool, bool) {
 		return 0, false
 	}
 	set := func(v ssa.Value, x int64) { env[v] = x; known[v] = true }
+	// values that denote the argument string itself (the parameter, []byte(s), a renamed copy)
+	alias := map[ssa.Value]bool{fn.Params[0]: true}
+	elemPtr := map[ssa.Value]bool{} // &alias[0]
 	rangeCount := map[*ssa.Range]int{}
 	nextState := map[*ssa.Next]int{}
 	blk := fn.Blocks[0]
@@ -3177,13 +3185,21 @@ func evalBytePredicate(fn *ssa.Function, b byte) (bool, bool) {
 					}
 				}
 			case *ssa.Call:
-				if bi, ok := x.Call.Value.(*ssa.Builtin); ok && bi.Name() == "len" && len(x.Call.Args) == 1 && x.Call.Args[0] == ssa.Value(fn.Params[0]) {
+				if bi, ok := x.Call.Value.(*ssa.Builtin); ok && bi.Name() == "len" && len(x.Call.Args) == 1 && alias[x.Call.Args[0]] {
 					set(x, 1)
 				} else {
 					return false, false
 				}
+			case *ssa.IndexAddr:
+				if alias[x.X] {
+					if i, ok := eval(x.Index); ok && i == 0 {
+						elemPtr[x] = true
+						continue
+					}
+				}
+				return false, false
 			case *ssa.Lookup:
-				if x.X == ssa.Value(fn.Params[0]) {
+				if alias[x.X] {
 					i, ok := eval(x.Index)
 					if !ok || i != 0 {
 						return false, false
@@ -3193,7 +3209,7 @@ func evalBytePredicate(fn *ssa.Function, b byte) (bool, bool) {
 					return false, false
 				}
 			case *ssa.Index:
-				if x.X == ssa.Value(fn.Params[0]) {
+				if alias[x.X] {
 					i, ok := eval(x.Index)
 					if !ok || i != 0 {
 						return false, false
@@ -3203,7 +3219,7 @@ func evalBytePredicate(fn *ssa.Function, b byte) (bool, bool) {
 					return false, false
 				}
 			case *ssa.Range:
-				if x.X != ssa.Value(fn.Params[0]) {
+				if !alias[x.X] {
 					return false, false
 				}
 				rangeCount[x] = 0
@@ -3237,6 +3253,18 @@ func evalBytePredicate(fn *ssa.Function, b byte) (bool, bool) {
 					set(x, r)
 				}
 			case *ssa.Convert:
+				if alias[x.X] {
+					alias[x] = true // []byte(s), string(b)
+					continue
+				}
+				if v, ok := eval(x.X); ok {
+					set(x, v)
+				}
+			case *ssa.ChangeType:
+				if alias[x.X] {
+					alias[x] = true
+					continue
+				}
 				if v, ok := eval(x.X); ok {
 					set(x, v)
 				}
@@ -3283,6 +3311,9 @@ func evalBytePredicate(fn *ssa.Function, b byte) (bool, bool) {
 					if v, ok := eval(x.X); ok {
 						set(x, 1-v)
 					}
+				}
+				if x.Op == token.MUL && elemPtr[x.X] {
+					set(x, int64(b))
 				}
 			case *ssa.If:
 				v, ok := eval(x.Cond)
@@ -4319,6 +4350,9 @@ func j6Run(fn *ssa.Function, rdIn ssa.Instruction, rd ssa.Value, b int64, fam ma
 			case *ssa.If:
 				v, ok := eval(x.Cond)
 				if !ok {
+					if os.Getenv("VERIF_DEBUG") != "" {
+						fmt.Fprintf(os.Stderr, "j6Run: b=%d undetermined condition %s in block %d\n", b, x.Cond, blk.Index)
+					}
 					return false, false, false
 				}
 				if v != 0 {
@@ -4342,6 +4376,22 @@ func j6Run(fn *ssa.Function, rdIn ssa.Instruction, rd ssa.Value, b int64, fam ma
 				break
 			}
 			if !fam[ph] {
+				// an ordinary phi (the value of an || or &&, a loop counter): take the incoming value if known
+				for i, p := range next.Preds {
+					if p == blk {
+						if c, ok := ph.Edges[i].(*ssa.Const); ok && c.Value != nil && c.Value.Kind().String() == "Bool" {
+							if c.Value.String() == "true" {
+								env[ph] = 1
+							} else {
+								env[ph] = 0
+							}
+						} else if v, ok := eval(ph.Edges[i]); ok {
+							env[ph] = v
+						} else {
+							delete(env, ph)
+						}
+					}
+				}
 				continue
 			}
 			for i, p := range next.Preds {
@@ -4936,16 +4986,18 @@ func init() {
 }
 
 func ruleQ8(c *Ctx) {
-	fn := c.P.Func("syntax", "unquote")
-	if fn == nil {
-		c.anchorFail("syntax.unquote not found")
-		return
-	}
-	// the \u arm: a strconv.ParseUint call whose result is compared with unicode.MaxRune
+	// the \u arm: a strconv.ParseUint call whose result is compared with unicode.MaxRune (in unquote or a helper of it)
 	var call *ssa.Call
-	eachInstr(fn, func(in ssa.Instruction) {
+	var fn *ssa.Function
+	_ = fn
+	for _, f := range c.P.Funcs {
+		if relPkg(fnPkgPath(f)) != "syntax" {
+			continue
+		}
+		f := f
+	eachInstr(f, func(in ssa.Instruction) {
 		cl, ok := in.(*ssa.Call)
-		if !ok || in.Parent() != fn {
+		if !ok || in.Parent() != f {
 			return
 		}
 		if cal := cl.Call.StaticCallee(); cal == nil || cal.String() != "strconv.ParseUint" {
@@ -4959,18 +5011,19 @@ func ruleQ8(c *Ctx) {
 			for _, u := range *ex.Referrers() {
 				if bo, ok := u.(*ssa.BinOp); ok {
 					if k, ok := constInt(bo.Y); ok && k == 0x10FFFF {
-						call = cl
+						call, fn = cl, f
 					}
 					if k, ok := constInt(bo.X); ok && k == 0x10FFFF {
-						call = cl
+						call, fn = cl, f
 					}
 				}
 			}
 		}
 	})
+	}
 	key := "syntax.unquote: \\u escape range"
 	if call == nil {
-		c.viol(key, c.P.Pos(fn.Pos()), "no check of the parsed code point against unicode.MaxRune found after strconv.ParseUint: escapes above U+10FFFF are not rejected")
+		c.viol(key, "-", "no check of the parsed code point against unicode.MaxRune found after strconv.ParseUint: escapes above U+10FFFF are not rejected")
 		return
 	}
 	run := func(n uint64) (accepted, ok bool) {
@@ -5010,6 +5063,10 @@ func ruleQ8(c *Ctx) {
 				return false, false
 			}
 			if ret != nil {
+				// a helper: accepted iff it returns a nil error
+				if len(ret.Results) > 0 && ret.Results[len(ret.Results)-1].Type().String() == "error" {
+					return isNilConst(ret.Results[len(ret.Results)-1]), true
+				}
 				return false, false
 			}
 			blk, start = next, 0
